@@ -119,9 +119,9 @@ theorem session_sound (e : Env) (hd : Disj e) (file : Bytes) (valid : List Int) 
     fun i hi => hc.1 i (fun _ _ _ _ => Or.inl (by omega))⟩
 
 /-- a round that transfers anything ends in the state of a session in an environment with this hash function and header -/
-theorem round_some (H : HashFn) (rx : Rx) (B : Bytes) (th : Hdr) (limit : Int) (frag : Nat) (cut : Option Nat) (file : Bytes) (valid : List Int)
+theorem round_some (n : Nat) (H : HashFn) (rx : Rx) (B : Bytes) (th : Hdr) (limit : Int) (frag : Nat) (cut : Option Nat) (file : Bytes) (valid : List Int)
     (r : String) (f : Bytes) (v : List Int) (ok : Bool)
-    (h : Update.round H rx B th limit frag cut file valid = (r, some (f, v, ok))) :
+    (h : Update.round n H rx B th limit frag cut file valid = (r, some (f, v, ok))) :
     ∃ ridx lines frags, f = (session (envOf H rx th ridx) file valid lines frags).2.2.file ∧
       v = (session (envOf H rx th ridx) file valid lines frags).2.2.valid := by
   unfold Update.round at h
@@ -136,20 +136,20 @@ theorem round_some (H : HashFn) (rx : Rx) (B : Bytes) (th : Hdr) (limit : Int) (
       rw [hc] at h
       simp only at h
       by_cases ha : accepted (session { H := H, rx := rx, hdr := th, ridx := mkRidx (reqOf th limit valid).index 0 } file valid
-          (respond B rs).1 (pieces frag (cutBody cut (respond B rs).2))).1 (respond B rs).1 = true
+          (respond n B rs).1 (pieces frag (cutBody cut (respond n B rs).2))).1 (respond n B rs).1 = true
       · simp only [ha, not_true_eq_false, ↓reduceIte, Prod.mk.injEq, Option.some.injEq] at h
         exact ⟨_, _, _, h.2.1.symm, h.2.2.1.symm⟩
       · simp [ha] at h
 
 /-- **one round of the fetch loop** (any response, any fragment size, any regex answers): valid chunks stay valid and
 present, newly valid ones are present -/
-theorem round_sound (H : HashFn) (rx : Rx) (B : Bytes) (th : Hdr) (limit : Int) (frag : Nat) (cut : Option Nat) (file : Bytes) (valid : List Int)
+theorem round_sound (n : Nat) (H : HashFn) (rx : Rx) (B : Bytes) (th : Hdr) (limit : Int) (frag : Nat) (cut : Option Nat) (file : Bytes) (valid : List Int)
     (hd : Disj (envOf H rx th [])) (hok : AllOk (envOf H rx th []) file valid)
     (r : String) (f : Bytes) (v : List Int) (ok : Bool)
-    (h : Update.round H rx B th limit frag cut file valid = (r, some (f, v, ok))) :
+    (h : Update.round n H rx B th limit frag cut file valid = (r, some (f, v, ok))) :
     AllOk (envOf H rx th []) f v ∧ (∀ k, valid.getD k 0 = 1 → v.getD k 0 = 1) ∧
     (∀ i, i < th.lead + th.headerLen → f.getD i 0 = file.getD i 0) := by
-  obtain ⟨ridx, lines, frags, rfl, rfl⟩ := round_some H rx B th limit frag cut file valid r f v ok h
+  obtain ⟨ridx, lines, frags, rfl, rfl⟩ := round_some n H rx B th limit frag cut file valid r f v ok h
   have := session_sound (envOf H rx th ridx) ((disj_ridx H rx th [] ridx).mp hd) file valid lines frags
     ((allOk_ridx H rx th [] ridx file valid).mp hok)
   exact ⟨(allOk_ridx H rx th ridx [] _ _).mp this.1, this.2.1, this.2.2⟩
@@ -176,10 +176,10 @@ theorem loop_sound (H : HashFn) (rx : Rx) (B : Bytes) (th : Hdr) (limit : Int) (
     · split
       · exact ⟨hok, fun _ h => h, fun h => by simp at h, fun _ _ => rfl⟩
       · rename_i r f v heq
-        have := round_sound H rx B th limit frag _ file valid hd hok r f v false heq
+        have := round_sound _ H rx B th limit frag _ file valid hd hok r f v false heq
         exact ⟨this.1, this.2.1, fun h => by simp at h, this.2.2⟩
       · rename_i r f v heq
-        have hr := round_sound H rx B th limit frag _ file valid hd hok r f v true heq
+        have hr := round_sound _ H rx B th limit frag _ file valid hd hok r f v true heq
         have ih := loop_sound H rx B th limit frag drop hd fuel f v (r :: reqs) (n + 1) hr.1
         exact ⟨ih.1, fun k hk => ih.2.1 k (hr.2.1 k hk), ih.2.2.1, fun i hi => by rw [ih.2.2.2 i hi, hr.2.2 i hi]⟩
 
